@@ -45,7 +45,9 @@ RULE = ('event lists with 0-2 gradient events per channel (trapezoid, triangle, 
         'is summed with others): matrix, bypass identity, drop allowance, inverse rotation, norm; input snapshots. Model: '
         'classification, scaled pieces, threshold and first elimination compared piece-wise with the returned events; '
         'full rotate with the C16 add_gradients model compared event by event (time-boxed, smallest cases first); '
-        'equally shaped trapezoids with equal/different delays; system passed explicitly or via Opts.set_as_default. '
+        'equally shaped trapezoids with equal/different delays; system passed explicitly or via Opts.set_as_default; '
+        'events registered with a Sequence (library ids, shape_IDs): no returned new event may carry such an id, and the '
+        'returned events stored with add_block and decoded with get_block must show the rotated waveforms. '
         'non-trivial = at least one gradient was rotated')
 TRUSTED = ['binary64 arithmetic and np.cos/np.sin are outside the model (cos/sin are fed to the model as exact doubles)',
            'add_gradients is used as "pointwise sum" (property C16), exactly so only at raster centres for arbitrary inputs']
